@@ -118,7 +118,7 @@ func init() {
 
 func envHeader(ts []*target) string {
 	var sb strings.Builder
-	sb.WriteString("From Coq Require Import String List NArith ZArith.\nFrom Coq Require Import Uint63.\nFrom J5V.lib Require Import Json Pack.\nFrom J5V.model Require Import CodecTypes CodecEnc CodecEncCorr.\nImport ListNotations.\nLocal Open Scope N_scope.\n")
+	sb.WriteString("From Coq Require Import String List NArith ZArith.\nFrom Coq Require Import Uint63.\nFrom J5V.lib Require Import Json Pack.\nFrom J5V.model Require Import CodecTypes CodecEnc CodecEnvDerive CodecEncCorr.\nImport ListNotations.\nLocal Open Scope N_scope.\n")
 	for _, t := range ts {
 		fmt.Fprintf(&sb, "Definition %s : env := %s.\n", t.Name, t.Env.Coq())
 	}
